@@ -222,9 +222,9 @@ _SEQX = (" E-seqx (systematic, no random choice inside a history): add o1 ; [add
          " Churn scenario (one random case in thirty): 18-70 makers, then 15-257 cancels / amends / price moves / small matches."
          " Sparse observation (one random case in five): the harness reads nothing of its own between the calls, incl. pairs of amendments "
          "that cancel out in every aggregate.")
-_CONCX = (" E-concx (systematic): 1008 enumerated two-thread programs (7 target shapes x with/without a second order x 8 calls x 9 calls; all five update kinds occur), each "
+_CONCX = (" E-concx (systematic): 1120 enumerated two-thread programs (7 target shapes x with/without a second order x 8 calls x 10 calls; all five update kinds and snapshot() occur), each "
           "under every schedule 'thread 0 runs k steps, thread 1 runs m steps, thread 0 finishes, thread 1 finishes' of a grid; quick: a seeded "
-          "sample of 32 programs x 8 x 12 schedules, thorough: all programs x 9 x 18. In half of all scheduled executions worker 0 is the thread "
+          "stratified sample of 160 programs (every pair of calls, two target blocks each) x 6 x 5 schedules, thorough: all programs x 9 x 18. In half of all scheduled executions worker 0 is the thread "
           "that built the level and the id generator.")
 for _p, _spec in PROPS.items():
     if "seqx" in _spec["engines"]:
